@@ -425,6 +425,16 @@ def decodeCavs (fuel : Nat) (bs : Bytes) : Option (List (Cav Bytes)) :=
   | none => none
   | some (v, _) => (Dec.cavsOfV fuel v).toOption
 
+/-- `macaroon.DecodeCaveats(buf)` as a caller sees it, the byte string standing on its own: for a wire
+`nil` in the OUTERMOST position the msgpack library does not call `CaveatSet.DecodeMsgpack` at all, it
+leaves the zero value — the empty set — and succeeds (`decodeCavs` refuses a `nil` tree; inside tokens,
+tickets and conditionals the `nil` case is handled by the callers of `cavsOfV`).  Found by the wire
+family's container sweep; this is what the driver evaluates for `dec.cavs` / `reenc.cavs`. -/
+def decodeCavsTopLevel (fuel : Nat) (bs : Bytes) : Option (List (Cav Bytes)) :=
+  match dec fuel bs with
+  | some (.nil, _) => some []
+  | _ => decodeCavs fuel bs
+
 def decodeTicket (fuel : Nat) (bs : Bytes) : Option (Bytes × List (Cav Bytes)) :=
   match dec fuel bs with
   | none => none
